@@ -19,6 +19,8 @@ type c06Case struct {
 	HostSegs   []int
 	Pace       bool
 	Seed       int64
+	// StallMs: the client stops reading for this long while the host keeps sending, then resumes
+	StallMs int
 }
 
 type piece struct {
@@ -61,6 +63,10 @@ func CheckC06(l *Lab, verifDir string) int {
 			}
 		}
 	}
+	// a client that stops reading for a while (longer than any write timeout someone may add)
+	for _, tr := range Transports() {
+		add(c06Case{Transport: tr, LenC: 50000, LenH: 24 << 20, PktSizes: []int{4096}, HostSegs: []int{65536}, StallMs: l.Pick(6500, 12000)})
+	}
 	// lies about the payload length
 	for i := 0; i < l.Pick(12, 120); i++ {
 		for _, lie := range []string{"short", "long"} {
@@ -73,7 +79,11 @@ func CheckC06(l *Lab, verifDir string) int {
 		if i%10 == 0 && !l.Quick() {
 			lc, lh = 4<<20, 1<<20
 		}
-		add(c06Case{Transport: Transports()[rnd.Intn(len(Transports()))], LenC: lc, LenH: lh, PktSizes: sizes[rnd.Intn(len(sizes))],
+		ps := sizes[rnd.Intn(len(sizes))]
+		if lc >= 1<<20 && len(ps) == 1 && ps[0] == 1 {
+			ps = []int{8192}
+		}
+		add(c06Case{Transport: Transports()[rnd.Intn(len(Transports()))], LenC: lc, LenH: lh, PktSizes: ps,
 			HostSegs: []int{1 + rnd.Intn(65536), 1 + rnd.Intn(5000)}, Pace: rnd.Intn(2) == 0})
 	}
 	jobs := make(chan c06Case, 16)
@@ -188,6 +198,13 @@ func c06One(rep *Report, f *Fixture, c c06Case) {
 		}
 	}()
 	prnd := rand.New(rand.NewSource(c.Seed + 1))
+	if c.StallMs > 0 {
+		ch.T.PauseReading()
+		go func() {
+			time.Sleep(time.Duration(c.StallMs) * time.Millisecond)
+			ch.T.ResumeReading()
+		}()
+	}
 	go func() {
 		defer wg.Done()
 		ch.B.SendPlan(streamH, c.HostSegs, func(i int) {
@@ -202,8 +219,8 @@ func c06One(rep *Report, f *Fixture, c c06Case) {
 		mustLen += len(p.must)
 	}
 	W := env.W
-	gotH, toH := ch.T.WaitDataBytes(len(streamH), W)
-	gotC, toC := ch.B.WaitBytes(mustLen, W)
+	gotH, toH := ch.T.WaitDataBytesProgress(len(streamH), W)
+	gotC, toC := ch.B.WaitBytesProgress(mustLen, W)
 	if c.Lie == "long" {
 		// optional contributions may still be in flight: settle on a sync packet
 		time.Sleep(20 * time.Millisecond)
@@ -226,7 +243,7 @@ func c06One(rep *Report, f *Fixture, c c06Case) {
 	}
 	key := ""
 	if gotH+gotC > 0 {
-		key = HashStr(c.Transport, cls(c.LenC), cls(c.LenH), fmt.Sprint(c.PktSizes), c.Lie, c.Pace)
+		key = HashStr(c.Transport, cls(c.LenC), cls(c.LenH), fmt.Sprint(c.PktSizes), c.Lie, c.Pace, c.StallMs > 0)
 	}
 	rep.Eval(key)
 	rep.Count("tunnels", 1)
@@ -246,7 +263,7 @@ func c06One(rep *Report, f *Fixture, c c06Case) {
 		rep.Violate("C06/host-to-client-corrupted/"+c.Transport, fmt.Sprintf("payload received by the client diverges from the host's stream at offset %d (received %d of %d bytes)", d, len(payload), len(streamH)), detail)
 	} else if len(payload) != len(streamH) {
 		if toH && f.GW.Alive() && !snap.OutEnded {
-			rep.Violate("C06/host-to-client-incomplete/"+c.Transport, fmt.Sprintf("client received %d of %d bytes within %v although the tunnel stayed open", len(payload), len(streamH), W), detail)
+			rep.Violate("C06/host-to-client-incomplete/"+c.Transport, fmt.Sprintf("client received %d of %d bytes and nothing more for %v although the tunnel stayed open", len(payload), len(streamH), W), detail)
 		} else {
 			rep.Inconclusive(fmt.Sprintf("host->client incomplete (%d/%d) but tunnel ended=%v", len(payload), len(streamH), snap.OutEnded))
 		}
@@ -256,7 +273,7 @@ func c06One(rep *Report, f *Fixture, c c06Case) {
 		rep.Violate("C06/client-to-host-corrupted/"+c.Transport+"/"+c.Lie, why, detail)
 	} else if toC && len(recvC) < mustLen {
 		if f.GW.Alive() && !snap.OutEnded {
-			rep.Violate("C06/client-to-host-incomplete/"+c.Transport, fmt.Sprintf("host received %d bytes, at least %d declared within %v", len(recvC), mustLen, W), detail)
+			rep.Violate("C06/client-to-host-incomplete/"+c.Transport, fmt.Sprintf("host received %d bytes of at least %d declared and nothing more for %v", len(recvC), mustLen, W), detail)
 		} else {
 			rep.Inconclusive("client->host incomplete, tunnel ended")
 		}
